@@ -3,7 +3,7 @@ import os
 
 from . import core
 from .p_doc import plain_corpus, generated_corpus, text_of, ALL_EXT
-from .p_parse import fence_corpus, meta_boundary_corpus
+from .p_parse import label_corpus, specials_corpus, fence_corpus, meta_boundary_corpus
 
 
 def check_c14(ctx):
@@ -15,7 +15,7 @@ def check_c14(ctx):
         ctx.model_violation(r)
         gen += r.replay
     plain = [dict(text=text_of(r)) for r in plain_corpus(ctx, [(0, "bundled")])]
-    plain += fence_corpus(3 if quick else 4) + meta_boundary_corpus()
+    plain += fence_corpus(3 if quick else 4) + meta_boundary_corpus() + label_corpus(3) + specials_corpus()
     if not quick and len(plain) > 150000:      # x 8 extension sets: the recorder and the judge hold every record
         import random
         plain = random.Random(ctx.seed).sample(plain, 150000)
